@@ -7,6 +7,7 @@ import common as C
 PROP = "C06"
 HARNESS = "lh"
 COMPONENT = "lh"
+TIE = ["TranslatedLh"]       # Lemmas/TranslatedLh.lean: Model/Linkhash.lean lookup = lh_table_lookup_entry_w_hash as translated by tools/extract/c2lean.py
 VARIANT = "asan"
 WRAPS = ("json_c_get_random_seed",)      # the harness supplies the entropy source: -1 once, then a fixed seed
 TIMEOUT = 1500
